@@ -11,6 +11,7 @@ Environment overrides (experiments only):
 """
 import concurrent.futures
 import hashlib
+import json
 import os
 import pty
 import random
@@ -898,3 +899,32 @@ def run(tier, seed):
         for r in res.inconclusive[:10]:
             print("INCONCLUSIVE", r)
     return common.finish(PROP, tier, seed, "exploration", res, RULE, ASSUMPTIONS, min_nontrivial=20)
+
+
+def replay(path):
+    """Re-runs one recorded case (same seed, tier, index: the case is regenerated) and reports what happens now."""
+    with open(path) as f:
+        rec = json.load(f)
+    rp = rec.get("replay", {})
+    if "idx" not in rp:
+        print(f"replay of {path}: not a generated case (fixed invalid-UTF-8 run); re-run the check instead")
+        return 0
+    tier, seed, idx = rec.get("tier", "quick"), int(rec.get("seed", 1)), int(rp["idx"])
+    builds = ["cli-dbg"] if tier == "quick" else ["cli-dbg", "cli-rel"]
+    case = gen_case(seed, idx, tier, builds)
+    bins = {case["build"]: common.build(case["build"])}
+    os.makedirs(os.path.join(common.VERIF, "run"), exist_ok=True)
+    workroot = tempfile.mkdtemp(prefix="c17-replay-", dir=os.path.join(common.VERIF, "run"))
+    try:
+        out = run_case(case, bins, workroot, False)
+    finally:
+        import shutil
+        shutil.rmtree(workroot, ignore_errors=True)
+    print(f"case {idx}: mode={case['mode']} build={case['build']} script={case['script']} bytes={len(case['data'])} writes={len(case['chunks'])}")
+    if out["failure"] is not None:
+        print("now:", out["failure"]["sig"], json.dumps(out["failure"]["detail"], ensure_ascii=False)[:600])
+        print(f"VIOLATION property={PROP} replay={path}")
+        return 1
+    print("now:", "inconclusive: " + out["inconclusive"]["why"] if out["inconclusive"] else "the recorded case no longer fails")
+    return 0
+
